@@ -5,6 +5,8 @@ driver for the angle-wrapping model (engine `wrap`).  Numbers are exact rational
 (`q > 0`; a float crosses as its exact value, never as decimal text).
   wrap1 a w | wrap2 a w | delta d a w          exact instantiation
   wrap1f a w | wrap2f a w | deltaf d a w       binary64 instantiation (arguments must be binary64 values)
+  wrap1t fa fw a w | wrap2t a w | deltat fd fa d a w   arguments of any numeric type; f* = 1 iff that argument is a float
+  region typed fd fa fw d a w                  1 iff Ioflo.Wrap.typedDiffers
   rn x                                         nearest binary64
   region float d a w                           1 iff Ioflo.Wrap.floatDiffers (known-finding region)
   region wrap1|wrap2|delta args..              1 iff that function's binary64 result ≠ exact result
@@ -19,6 +21,9 @@ def rat? (s : String) : Option Rat :=
       if q = 0 then none else pure (mkRat p q)
   | _ => none
 
+def flag? (s : String) : Option Bool :=
+  if s == "1" then some true else if s == "0" then some false else none
+
 def showRat (r : Rat) : String := toString r.num ++ "/" ++ toString r.den
 
 def reply (ws : List String) : Option String :=
@@ -31,6 +36,17 @@ def reply (ws : List String) : Option String :=
   | ["wrap2f", a, w] => do let a ← rat? a; let w ← rat? w; pure (showRat (wrap2F a w))
   | ["deltaf", d, a, w] => do
       let d ← rat? d; let a ← rat? a; let w ← rat? w; pure (showRat (deltaF d a w))
+  | ["wrap1t", fa, fw, a, w] => do
+      let fa ← flag? fa; let fw ← flag? fw; let a ← rat? a; let w ← rat? w
+      pure (showRat (wrap1T fa fw a w))
+  | ["wrap2t", a, w] => do let a ← rat? a; let w ← rat? w; pure (showRat (wrap2T a w))
+  | ["deltat", fd, fa, d, a, w] => do
+      let fd ← flag? fd; let fa ← flag? fa; let d ← rat? d; let a ← rat? a; let w ← rat? w
+      pure (showRat (deltaT fd fa d a w))
+  | ["region", "typed", fd, fa, fw, d, a, w] => do
+      let fd ← flag? fd; let fa ← flag? fa; let fw ← flag? fw
+      let d ← rat? d; let a ← rat? a; let w ← rat? w
+      pure (if typedDiffers fd fa fw d a w then "1" else "0")
   | ["rn", x] => do let x ← rat? x; pure (showRat (rn x))
   | ["region", "float", d, a, w] => do
       let d ← rat? d; let a ← rat? a; let w ← rat? w
